@@ -100,16 +100,18 @@ class C16(Property):
             d = rng.uniform(5.0, 90.0)
             items.append((0, [(x, y, "C"), (x, y, None), (g.f32(x + d), g.f32(y + rng.uniform(-d, d)), None)] +
                           [(g.coord(rng), g.coord(rng), None) for _ in range(rng.randint(0, 2))], "catmull-doubled-first"))
-        nats = g.natural_dists(core.run_impl, [(m, p) for m, p, _ in items])
+        lens = g.natural_lengths(core.run_impl, [(m, p) for m, p, _ in items])
         cases = []
-        for (m, pts, tag), nat in zip(items, nats):
-            classes = g.len_classes_nat(rng, nat)
+        for (m, pts, tag), cl in zip(items, lens):
+            nat = cl[-1] if cl else None
+            classes = g.len_classes_nat(rng, nat, cl)
+            cum = [c for c in classes if c[0].startswith("cum-")]
             if tag == "grid2":
                 pick = classes
             elif tag == "catmull-doubled-first":
                 pick = [("tiny", rng.uniform(0.01, 3.0)), ("tiny", rng.uniform(0.01, 12.0))] + rng.sample(classes, 2)
             else:
-                pick = rng.sample(classes, 3)
+                pick = rng.sample(classes, 3) + ([c for c in cum if c[0] == "cum-exact-duplicate"] or (rng.sample(cum, 1) if cum and rng.random() < 0.4 else []))
             for name, L in pick:
                 cases.append(Case(g.curve_line(cmd, m, L, pts), tags=(tag, "L-" + name, f"mode{m}")))
         for m in g.MODES:   # F13 witness: nearly collinear perfect curve whose f32 denominator is exactly 0
